@@ -677,6 +677,8 @@ func baseSpecs(ver int) map[string]string {
 	noX := "xs=0;xpk=~;xsg=-"
 	return map[string]string{
 		"ak":      common([]string{in("A0", 0), in("A0", 1)}, "A0", "~", "K0/S0.M", "~", noX),
+		// the initiator owns nothing and A2 is a pure co-signer: editing the signer list is not masked by the owner check
+		"cosign": common([]string{in("A1", 0), in("A1", 1)}, "A0", "A1,A2", "K0/S0.M", "K1/S1.M,K2/S2.M", noX),
 		"multi":   common([]string{in("A0", 0), in("A1", 1), in("A2", 2)}, "A0", "A1,A2", "K0/S0.M", "K1/S1.M,K2/S2.M", noX),
 		"account": common([]string{in("C1", 0), in("A0", 1)}, "A0", "C1|A1", "K0/S0.M", "K1/S1.M", noX),
 		"acctini": common([]string{in("C1", 0)}, "C1", "C1|A1", "K1/S1.M", "K1/S1.M", noX),
@@ -902,6 +904,57 @@ func schemaMutants(tx *pb.Transaction, form string) []txMutant {
 			t.XuperSign.Signature = symSig("X0_6.N")
 		})
 	}
+	// the signer list edited after signing, each entry TOGETHER with its signature slot, so that the edit is consistent
+	// (lengths agree, every entry that is present is a valid signature of its address over the transaction as it now
+	// is); the other signers' signatures are the ones they gave for the base.  Only the digest — which must cover
+	// Initiator and AuthRequire — stands between such an edit and acceptance.
+	if tx.XuperSign == nil && form != "acctini" {
+		own := func(k int) *protos.SignatureInfo {
+			return &protos.SignatureInfo{PublicKey: acct(k).PubJSON, Sign: symSig("S" + strconv.Itoa(k) + ".N")}
+		}
+		emit("signer-list:AuthRequire:append-with-own-signature", func(t *pb.Transaction) {
+			t.AuthRequire = append(t.AuthRequire, acct(6).Address)
+			t.AuthRequireSigns = append(t.AuthRequireSigns, own(6))
+		})
+		emit("signer-list:AuthRequire:prepend-with-own-signature", func(t *pb.Transaction) {
+			t.AuthRequire = append([]string{acct(6).Address}, t.AuthRequire...)
+			t.AuthRequireSigns = append([]*protos.SignatureInfo{own(6)}, t.AuthRequireSigns...)
+		})
+		emit("signer-list:AuthRequire:append-account-signer-with-own-signature", func(t *pb.Transaction) {
+			t.AuthRequire = append(t.AuthRequire, acctName(6)+"/"+acct(6).Address)
+			t.AuthRequireSigns = append(t.AuthRequireSigns, own(6))
+		})
+		emit("signer-list:Initiator:replace-with-own-signature", func(t *pb.Transaction) {
+			t.Initiator = acct(6).Address
+			t.InitiatorSigns[0] = own(6)
+		})
+		if n := len(tx.AuthRequire); n > 0 && n == len(tx.AuthRequireSigns) {
+			emit("signer-list:AuthRequire:remove-last-with-signature", func(t *pb.Transaction) {
+				t.AuthRequire, t.AuthRequireSigns = t.AuthRequire[:n-1], t.AuthRequireSigns[:n-1]
+			})
+			emit("signer-list:AuthRequire:remove-first-with-signature", func(t *pb.Transaction) {
+				t.AuthRequire, t.AuthRequireSigns = t.AuthRequire[1:], t.AuthRequireSigns[1:]
+			})
+			emit("signer-list:AuthRequire:replace-last-with-own-signature", func(t *pb.Transaction) {
+				t.AuthRequire[n-1] = acct(6).Address
+				t.AuthRequireSigns[n-1] = own(6)
+			})
+			emit("signer-list:AuthRequire:account-prefix-added", func(t *pb.Transaction) {
+				// same last component, so the entry's own signature check is the same: only the digest sees the change
+				if !strings.Contains(t.AuthRequire[n-1], "/") {
+					t.AuthRequire[n-1] = acctName(2) + "/" + t.AuthRequire[n-1]
+				} else {
+					t.AuthRequire[n-1] = t.AuthRequire[n-1][strings.LastIndex(t.AuthRequire[n-1], "/")+1:]
+				}
+			})
+			if n > 1 {
+				emit("signer-list:AuthRequire:swap-with-signatures", func(t *pb.Transaction) {
+					t.AuthRequire[0], t.AuthRequire[1] = t.AuthRequire[1], t.AuthRequire[0]
+					t.AuthRequireSigns[0], t.AuthRequireSigns[1] = t.AuthRequireSigns[1], t.AuthRequireSigns[0]
+				})
+			}
+		}
+	}
 	emit("signer:Initiator:other", func(t *pb.Transaction) { t.Initiator = acct(6).Address })
 	if len(tx.AuthRequire) > 0 {
 		emit("signer:AuthRequire:other", func(t *pb.Transaction) { t.AuthRequire[0] = acct(6).Address })
@@ -995,7 +1048,7 @@ func genC07(tier string, rng *xvlib.Rng, run func(string, bool)) {
 		run(fmt.Sprintf("k1 %d addr-amount", v), true)
 	}
 	// 3. schema-walking mutation of accepted transactions of every form and version
-	forms := []string{"ak", "multi", "account", "acctini", "xuper"}
+	forms := []string{"ak", "multi", "cosign", "account", "acctini", "xuper"}
 	nm := 0
 	for _, ver := range []int{3, 2, 1} {
 		specs := baseSpecs(ver)
@@ -1036,7 +1089,7 @@ func genC07(tier string, rng *xvlib.Rng, run func(string, bool)) {
 	// 4. outputs spent by the contract code the transaction carries
 	genVc(thorough, rng, run)
 	out.Stats.Exhaustive = false
-	out.Stats.Rule = fmt.Sprintf("d3/i3/d1: %d random transactions per encoder (all fields, empty/nil variants, versions 3,4,100 / 1,2), extracted schema bytes double-SHA-256 checked against MakeTxDigestHash and MakeTransactionID; vt: accepted transactions of 5 forms (address initiator, 2 extra signers, account-owned input via ACL, account initiator, aggregated XuperSign) × versions 3,2,1 × every single-field mutation reached by walking the %d leaf paths of the Transaction message (flip/truncate/append/clear, +1, toggle, map key), list grow/drop/dup/swap, signature by another key / with another public key / replayed from another transaction / swapped, signer and owner replaced — each once with the old txid kept and once with the txid recomputed —, plus re-signed variants (the signers sign again) whose spent output belongs to an address/account that did not sign — through the real State.VerifyTx; distinct by op line", nPre, len(schemas.TxFields))
+	out.Stats.Rule = fmt.Sprintf("d3/i3/d1: %d random transactions per encoder (all fields, empty/nil variants, versions 3,4,100 / 1,2), extracted schema bytes double-SHA-256 checked against MakeTxDigestHash and MakeTransactionID; vt: accepted transactions of 6 forms (address initiator, 2 extra signers, 2 pure co-signers with an initiator that owns nothing, account-owned input via ACL, account initiator, aggregated XuperSign) × versions 3,2,1 × every single-field mutation reached by walking the %d leaf paths of the Transaction message (flip/truncate/append/clear, +1, toggle, map key), list grow/drop/dup/swap, signature by another key / with another public key / replayed from another transaction / swapped, signer and owner replaced — each once with the old txid kept and once with the txid recomputed —, plus re-signed variants (the signers sign again) whose spent output belongs to an address/account that did not sign — through the real State.VerifyTx; distinct by op line", nPre, len(schemas.TxFields))
 	out.Stats.Notes = append(out.Stats.Notes,
 		"covered entry point: State.VerifyTx (ImmediateVerifyTx: txid recomputation, verifySignatures/verifyXuperSign, verifyUTXOPermission) on a real State over a real ledger with an in-memory ACL table (account Cn is controlled by address An, threshold 1); contract requests / RWSet re-execution (C09) and Chain.SubmitTx / the block path (verifyDAGTxs) are not driven",
 		"observations (distribution keys observation:*): Blockid, ReceivedTimestamp and ModifyBlock.* are outside digest and id, so changing them is accepted",
